@@ -1,5 +1,161 @@
+(* C16 -- Code is treated as unreachable or pointless only when it really is.
+   Property theorems only; every proof is `exact <lemma>`; Print Assumptions under each. *)
 From Coq Require Import List Bool.
-Require Import Pyrefact.FlowModel.
-Theorem placeholder : is_exception SRaise = true.
-Proof. reflexivity. Qed.
-Print Assumptions placeholder.
+Import ListNotations.
+Require Import Pyrefact.FlowModel Pyrefact.FlowProofs.
+
+(* T16.1  is_blocking is sound: a statement judged impossible to get past never completes normally,
+   for every statement tree, every behaviour of the unevaluable tests / iterables / calls
+   (context managers assumed not to swallow exceptions -- the tool's assumption). *)
+Theorem T16_1_blocking_sound :
+  forall s, is_blocking s PNone = true -> o_n (outcomes false s) = false.
+Proof. exact blocking_sound. Qed.
+Print Assumptions T16_1_blocking_sound.
+
+(* T16.1b  inside a loop body (the scan of `while True:` / `for x in <non-empty>:`) *)
+Theorem T16_1b_blocking_loop_sound :
+  forall s p, p <> PNone -> may_leave s = false -> is_blocking s p = true ->
+    o_n (outcomes false s) = false /\ o_b (outcomes false s) = false /\ o_c (outcomes false s) = false.
+Proof. exact blocking_loop_sound. Qed.
+Print Assumptions T16_1b_blocking_loop_sound.
+
+(* T16.1c  _may_leave_iteration is sound: no break/continue outcome when it answers False *)
+Theorem T16_1c_may_leave_sound :
+  forall sup s, may_leave s = false ->
+    o_b (outcomes sup s) = false /\ o_c (outcomes sup s) = false.
+Proof. exact may_leave_sound. Qed.
+Print Assumptions T16_1c_may_leave_sound.
+
+(* T16.2  delete_unreachable_code: what _iter_unreachable_nodes yields is preceded by a prefix of the
+   body that never completes normally *)
+Theorem T16_2_unreachable_sound :
+  forall body,
+    unreachable_from body = [] \/
+    exists pre s, body = pre ++ s :: unreachable_from body /\
+                  o_n (outcomes_block false (pre ++ [s])) = false.
+Proof. exact unreachable_sound. Qed.
+Print Assumptions T16_2_unreachable_sound.
+
+(* R16.2  refuted when a context manager may swallow an exception (known finding F16-2) ... *)
+Theorem R16_2_blocking_refuted_with_suppression :
+  exists s, is_blocking s PNone = true /\ o_n (outcomes true s) = true.
+Proof. exact blocking_refuted_with_suppression. Qed.
+Print Assumptions R16_2_blocking_refuted_with_suppression.
+
+(* ... and the guarded version that holds whatever context managers do *)
+Theorem T16_1_partial_no_with :
+  forall sup s, no_with s = true -> is_blocking s PNone = true -> o_n (outcomes sup s) = false.
+Proof. exact blocking_sound_no_with. Qed.
+Print Assumptions T16_1_partial_no_with.
+
+(* ===================== "pointless" half: core.has_side_effect ===================== *)
+(* (EffectModel has its own statement type; from here on `stmt`, `SIf`, ... are EffectModel's) *)
+From Coq Require Import String.
+Require Import PyrefactGen.Tables Pyrefact.EffectModel Pyrefact.EffectProofs.
+
+(* R16.4  has_side_effect identifies callees by bare name; three ways in which that is wrong
+   (known findings F16-12 / F16-13): `_()`, `list(map(print, xs))`, `B().f()` *)
+Theorem R16_4_refuted_underscore_callee :
+  exists e wl o, hse e wl = false /\ all_benign wl (fst (eval e o)) = false.
+Proof. exact hse_refuted_underscore_callee. Qed.
+Print Assumptions R16_4_refuted_underscore_callee.
+
+Theorem R16_4_refuted_higher_order :
+  exists e wl o, hse e wl = false /\ (forall x, mem x wl = true -> mem x impure_builtins = false) /\
+                 all_benign wl (fst (eval e o)) = false.
+Proof. exact hse_refuted_higher_order. Qed.
+Print Assumptions R16_4_refuted_higher_order.
+
+Theorem R16_4_refuted_method_name :
+  exists e wl o, hse e wl = false /\ all_benign wl (fst (eval e o)) = false.
+Proof. exact hse_refuted_method_name. Qed.
+Print Assumptions R16_4_refuted_method_name.
+
+(* T16.4 (partial)  for every expression tree whose callees are identifiable by name ([plain]: a plain
+   name other than `_`, or a method of a literal; no bare name handed to a higher-order builtin), every
+   whitelist and every oracle (truth values, iteration counts): has_side_effect = False implies that the
+   evaluation emits only harmless events -- calls of whitelisted callables, methods of literals, (re)binding
+   of `_`.  Comprehension elements and keys, conditional expressions, f-strings, slices included. *)
+Theorem T16_4_expr_partial :
+  forall e wl, plain e = true -> hse e wl = false ->
+  forall o, all_benign wl (fst (eval e o)) = true.
+Proof. exact hse_sound_partial. Qed.
+Print Assumptions T16_4_expr_partial.
+
+(* T16.4 (partial), statements: ... and the statement completes normally (binds nothing but `_`, cannot
+   alter control flow); for/else, if/else, assignments, definitions named `_` included *)
+Theorem T16_4_stmt_partial :
+  forall s wl, plain_s s = true -> hse_s s wl = false ->
+  forall o, all_benign wl (fst (fst (exec s o))) = true /\ snd (fst (exec s o)) = ONormal.
+Proof. exact hse_stmt_sound_partial. Qed.
+Print Assumptions T16_4_stmt_partial.
+
+(* T16.4c  the deletion decision of delete_pointless_statements *)
+Theorem T16_4c_pointless_sound :
+  forall body wl k s,
+    nth_error (stmts_list body) k = Some s ->
+    nth k (pointless body wl) false = true ->
+    plain_s s = true ->
+    forall o, all_benign wl (fst (fst (exec s o))) = true /\ snd (fst (exec s o)) = ONormal.
+Proof. exact pointless_sound. Qed.
+Print Assumptions T16_4c_pointless_sound.
+
+Theorem T16_4d_docstring_kept :
+  forall s tl wl, is_docstring s = true -> nth 0 (pointless (SCons s tl) wl) false = false.
+Proof. exact pointless_keeps_docstring. Qed.
+Print Assumptions T16_4d_docstring_kept.
+
+(* T16.4e  has_side_effect is monotone in the whitelist (used by T16.5) *)
+Theorem T16_4e_hse_monotone :
+  forall e a b, (forall x, mem x a = true -> mem x b = true) -> hse e a = false -> hse e b = false.
+Proof. exact hse_mono. Qed.
+Print Assumptions T16_4e_hse_monotone.
+
+(* ===================== parsing.safe_callable_names ===================== *)
+
+(* T16.5  every function name declared safe is a base name or names a definition whose inspected
+   statements and returned values are free of side effects relative to the final safe set *)
+Theorem T16_5_safe_names_justified :
+  forall base shadowed defs x,
+    mem x (fst (safe_functions base shadowed defs)) = true ->
+    mem x base = true \/
+    exists d, In d defs /\ f_name d = x /\ mem x shadowed = false /\
+              fdef_pure d (fst (safe_functions base shadowed defs)) = true.
+Proof. exact safe_names_justified. Qed.
+Print Assumptions T16_5_safe_names_justified.
+
+Theorem T16_5b_safe_class_justified :
+  forall base shadowed defs c,
+    class_safe (snd (safe_functions base shadowed defs)) c = true ->
+    forall i, In i (snd c) ->
+    exists d, nth_error defs i = Some d /\ mem (f_name d) shadowed = false /\
+              fdef_pure d (fst (safe_functions base shadowed defs)) = true.
+Proof. exact safe_class_justified. Qed.
+Print Assumptions T16_5b_safe_class_justified.
+
+(* R16.5  names, not definitions, are declared safe (known finding F16-12) ... *)
+Theorem R16_5_refuted_duplicate :
+  exists base shadowed defs d,
+    In d defs /\ mem (f_name d) (fst (safe_functions base shadowed defs)) = true /\
+    mem (f_name d) base = false /\ mem (f_name d) shadowed = false /\
+    fdef_pure d (fst (safe_functions base shadowed defs)) = false.
+Proof. exact safe_names_refuted_duplicate. Qed.
+Print Assumptions R16_5_refuted_duplicate.
+
+(* ... T16.5 (partial): with distinct definition names EVERY definition declared safe is free of side
+   effects *)
+Theorem T16_5_partial_unique_names :
+  forall base shadowed defs d,
+    nodupb (map f_name defs) = true ->
+    In d defs -> mem (f_name d) base = false ->
+    mem (f_name d) (fst (safe_functions base shadowed defs)) = true ->
+    fdef_pure d (fst (safe_functions base shadowed defs)) = true.
+Proof. exact safe_names_partial_unique. Qed.
+Print Assumptions T16_5_partial_unique_names.
+
+(* T16.6  the regenerated constants.SAFE_CALLABLES lists no builtin known to have a side effect
+   (next, anext, help, print, input, exec, ...) *)
+Theorem T16_6_safe_table_excludes_impure :
+  forall x, In x SAFE_CALLABLES -> mem x impure_builtins = false.
+Proof. exact (table_excludes_impure SAFE_CALLABLES eq_refl). Qed.
+Print Assumptions T16_6_safe_table_excludes_impure.
